@@ -51,6 +51,7 @@ pub fn generator(prop: &str) -> Option<Gen> {
         "C02" => Some(gen::gen_c02),
         "C04" => Some(gen::gen_c04),
         "C01" => Some(gen::gen_c01),
+        "C08" => Some(gen::gen_c08),
         _ => None,
     }
 }
@@ -66,6 +67,7 @@ pub fn budget(prop: &str, tier: &str) -> u64 {
         "C02" => 300,
         "C04" => 900,
         "C01" => 200,
+        "C08" => 300,
         "C14" => 3 * 6 * 155 + 200,
         _ => 150,
     };
